@@ -90,7 +90,7 @@ pub fn gen_req(rng: &mut Rng, keep: bool, noise_level: u64, mc: usize, bufsize: 
         }
         ops.push("d0".into()); ops.push("d1".into());
     }
-    let (tok, ret) = if allow_handler_err && rng.chance(1, 10) { let k = *rng.pick(&["other", "invalid", "eof"]); (format!("E{k}"), Ret::Err(k)) } else { status_token(rng) };
+    let (tok, ret) = if allow_handler_err && rng.chance(1, 10) { let k = *rng.pick(&["other", "invalid", "eof", "aborted"]); (format!("E{k}"), Ret::Err(k)) } else { status_token(rng) };
     if !tok.is_empty() { ops.push(tok); }
     let script = if ops.is_empty() { "-".to_string() } else { ops.join(",") };
     ReqPlan { pre, contents, recs, pre_len, owed, script, reads_all, outs, ret, opens }
@@ -384,14 +384,14 @@ pub fn run_c11(ctx: &mut Ctx) {
         } else {
             if ps != 0 { or.fail(format!("aborted request answered with protocol status {ps} (RequestComplete expected)"), log.replay_block(), "C11:status".into()); }
             // what did the handler see?
-            let saw_abort = tr.events.iter().any(|e| e.contains("!aborted"));
+            let saw_abort = tr.events.iter().any(|e| e.contains("!abort-request"));
             let he_j = tr.events.iter().filter(|e| e.starts_with("HE(")).nth(j).cloned().unwrap_or_default();
             let abrt = u32::from_be_bytes(*b"ABRT");
-            let exp_app = if he_j == "HE(err:aborted)" { abrt } else if own_status { 77 } else { 0 };
+            let exp_app = if he_j == "HE(err:abort-request)" { abrt } else if own_status { 77 } else { 0 };
             if app != exp_app { or.fail(format!("aborted request: app status {app:#x}, expected {exp_app:#x} (handler ended with {he_j}, saw abort error: {saw_abort})"), log.replay_block(), "C11:app-status".into()); }
-            if reads && !ignore && saw_abort && he_j != "HE(err:aborted)" { or.fail(format!("handler propagating the abort error ended with {he_j}"), log.replay_block(), "C11:propagation".into()); }
+            if reads && !ignore && saw_abort && he_j != "HE(err:abort-request)" { or.fail(format!("handler propagating the abort error ended with {he_j}"), log.replay_block(), "C11:propagation".into()); }
             // input delivered before the error is a prefix of what was sent
-            for e in &tr.events { if let Some(rest) = e.strip_prefix("R!aborted:") { let data = unhex(rest.split(':').nth(1).unwrap_or("-")); if !plans[j].contents.iter().any(|(_, c)| c.starts_with(&data)) { or.fail("bytes delivered before the abort error are not a prefix of the stream".into(), log.replay_block(), "C11:prefix".into()); } } }
+            for e in &tr.events { if let Some(rest) = e.strip_prefix("R!abort-request:") { let data = unhex(rest.split(':').nth(1).unwrap_or("-")); if !plans[j].contents.iter().any(|(_, c)| c.starts_with(&data)) { or.fail("bytes delivered before the abort error are not a prefix of the stream".into(), log.replay_block(), "C11:prefix".into()); } } }
         }
         // the connection stays usable: every later request is served and answered
         for (i, p) in plans.iter().enumerate().skip(j + 1) {
@@ -418,6 +418,28 @@ pub fn run_c12(ctx: &mut Ctx) {
          combined with the C07 read/write chunking patterns. Oracle: the task returns (never panics, stalls or spins); no handler for an incomplete preamble; no successful short read-to-end; nothing accepted after a failed write for a propagating handler; the log is a prefix of a record sequence. Non-trivial: all; distinct by (connection, fault)");
     let mut rng = ctx.rng.fork();
     let thorough = ctx.tier_thorough || ctx.widen;
+    // corpus first: minimised past failures; every case is a fault run whose handlers all propagate I/O errors
+    let corpus = std::path::Path::new(env!("CARGO_MANIFEST_DIR")).join("../corpus/C12.txt");
+    if let Ok(text) = std::fs::read_to_string(&corpus) {
+        for line in text.lines() {
+            if let Some(id) = line.strip_prefix("# case ") { log.case(id); }
+            else if line.starts_with("t.run") {
+                let o = ex(&mut log, &mut im, line);
+                let tr = parse_trace(&o);
+                if tr.fin != "RET" { or.fail(format!("corpus history {}: the connection task ended with {} instead of returning", log.cur_id, tr.fin), log.replay_block(), format!("C12:fin-{}:{}", tr.fin, log.cur_id)); }
+                let mut failed = false;
+                for e in &tr.events {
+                    let is_w = (e.starts_with('W') || e.starts_with('V')) && e.contains(':') && !e.starts_with("W=") && !e.starts_with("W!");
+                    if !is_w { continue; }
+                    let res = e.rsplit(':').next().unwrap();
+                    if failed && res.parse::<usize>().map_or(false, |n| n > 0) { or.fail(format!("corpus history {}: bytes were written after the failed write", log.cur_id), log.replay_block(), format!("C12:write-after-failure:{}", log.cur_id)); break; }
+                    if res == "E" || res == "Z" { failed = true; }
+                }
+                if let (_, _, Some(bm)) = decode_log(&tr.wlog) { or.fail(format!("corpus history {}: bytes written are not a prefix of a record sequence: {bm}", log.cur_id), log.replay_block(), format!("C12:log-malformed:{}", log.cur_id)); }
+                or.eval(line, true); or.count("corpus_cases");
+            }
+        }
+    }
     for ci in 0..ctx.n(25, 300) {
         let k = 1 + rng.usize_below(2);
         let mc = 1 + rng.usize_below(50);
@@ -443,9 +465,11 @@ pub fn run_c12(ctx: &mut Ctx) {
         for o in offs { faults.push((format!("eof@{o}"), format!("t.run B={b} mc={mc} in={} end=eof rd={rd} wr={wr} fl=- stop=none h={hs}", hexd(&wire[..o])))); }
         let set_nth = |script: &str, n: usize, what: &str| -> String { let mut v: Vec<String> = if script == "-" { vec![] } else { script.split(',').map(|s| s.to_string()).collect() }; while v.len() <= n { v.push("A".into()); } v[n] = what.into(); v.join(",") };
         let step = if thorough || nreads <= 100 { 1 } else { (nreads / 100).max(1) };
-        for i in (0..nreads).step_by(step) { faults.push((format!("readerr@{i}"), format!("t.run B={b} mc={mc} in={} end=eof rd={} wr={wr} fl=- stop=none h={hs}", hexd(&wire), set_nth(&rd, i, "E")))); }
+        // transport errors come in two flavours: a kind the library never produces itself, and kind ConnectionAborted (ek=a),
+        // which the library also uses for "the client aborted this request"
+        for i in (0..nreads).step_by(step) { for (tag, ek) in [("", ""), ("A", " ek=a")] { faults.push((format!("readerr{tag}@{i}"), format!("t.run B={b} mc={mc} in={} end=eof rd={} wr={wr} fl=- stop=none h={hs}{ek}", hexd(&wire), set_nth(&rd, i, "E")))); } }
         let step = if thorough || nwrites <= 150 { 1 } else { (nwrites / 150).max(1) };
-        for i in (0..nwrites).step_by(step) { for what in ["E", "Z"] { faults.push((format!("write{what}@{i}"), format!("t.run B={b} mc={mc} in={} end=eof rd={rd} wr={} fl=- stop=none h={hs}", hexd(&wire), set_nth(&wr, i, what)))); } }
+        for i in (0..nwrites).step_by(step) { for (tag, what, ek) in [("E", "E", ""), ("Z", "Z", ""), ("EA", "E", " ek=a")] { faults.push((format!("write{tag}@{i}"), format!("t.run B={b} mc={mc} in={} end=eof rd={rd} wr={} fl=- stop=none h={hs}{ek}", hexd(&wire), set_nth(&wr, i, what)))); } }
         for (fi, (kind, op)) in faults.iter().enumerate() {
             log.case(&format!("c12-{ci}-{fi}"));
             let o = ex(&mut log, &mut im, op);
